@@ -12,6 +12,8 @@ import Logrange.Generated.C11
   → `cfrmd=<n> pend=<n>/<n> lock=<w|-> <pc>:<pos>:<sub>:<woke>*`
 * `queryloop <wt> <lim> <fuel> <visible e,e,…|-> <future>*` — futures: `T` (the wait times out) | `D:<e,e,…|->`
   → `ok <e,e,…|->` | `outOfFuel`
+* `querycall <rpc|backend> <wt> <lim> <fuel> <visible> <future>*` — the whole Query call of that path with the loop shape
+  regenerated from the source → same answers
 * `queryempty <wt> <lim> <fuel>` — the empty cursor as the source defines it now → same answers
 * `eofpos <idx> <c1> <c2>` → `eof <pos>` | `rec <idx>`
 -/
@@ -86,6 +88,12 @@ def handle (u : Unit) (toks : List String) : Unit × String :=
       " ".intercalate (st.ws.map (fun x => s!"{showPc x.pc}:{x.pos}:{if x.sub then 1 else 0}:{if x.woke then 1 else 0}")))
   | "queryloop" :: wt :: lim :: fuel :: vis :: futs =>
     (u, showQ (queryLoop scriptCur (nat wt) (nat lim) (nat fuel) (nat lim) (parseNats vis, futs.map parseFuture) []))
+  | "querycall" :: path :: wt :: lim :: fuel :: vis :: futs =>
+    let b := Logrange.Generated.C11.backendLoopShape
+    let r := Logrange.Generated.C11.rpcLoopShape
+    let k : LoopShape := if path == "rpc" then ⟨r.1, r.2.1, r.2.2, Logrange.Generated.C11.rpcEarlyEmptyForZeroLimit⟩
+      else ⟨b.1, b.2.1, b.2.2, false⟩
+    (u, showQ (queryCall k scriptCur (nat wt) (nat lim) (nat fuel) (parseNats vis, futs.map parseFuture)))
   | ["queryempty", wt, lim, fuel] =>
     (u, showQ (queryLoop (emptyCur Logrange.Generated.C11.emptyCursorWaitReturnsAtOnce) (nat wt) (nat lim) (nat fuel) (nat lim) () []))
   | ["eofpos", i, c1, c2] =>
